@@ -168,3 +168,21 @@ def param_index(body, name):
         if body.local_name(i) == name:
             return i
     return None
+
+
+def unconditional_pair(fl, first, second):
+    """From block `first`, every path that reaches the head of a loop enclosing `first` or a return
+    passes through `second` or an error exit (`?` error arm / Err construction)."""
+    cfg = fl.cfg
+    loops = cfg.loops()
+    errs = error_blocks(fl.body)
+    encl = {h for h in loops if first in loops[h]}
+    rets = set(cfg.exits())
+    r = set()
+    for s, _ in cfg.succ[first]:
+        r |= cfg.reach(s, cut_blocks=set([second]) | errs)
+    return not (r & (encl | rets))
+
+
+def buf_sig(fl, op):
+    return frozenset((o.kind, o.key, o.path, o.bb) for o in fl.origins(op))
